@@ -148,6 +148,51 @@ class Codec:
 
         return fixmsg + SEP
 
+    def retransmission(self, rawmsg: bytes) -> bytes:
+        """A journaled frame as its retransmission.
+
+        PossDupFlag=Y, OrigSendingTime = the SendingTime it was first sent with, a
+        new SendingTime, BodyLength and CheckSum over the new bytes; every other
+        field byte for byte.  Works on the frame, not on a decoded message, so
+        it does not depend on the repeating group table.
+
+        Args:
+            rawmsg: complete frame as it was sent (and journaled)
+
+        Returns:
+            frame bytes to write to the socket
+        """
+        soh = self.SOH.encode()
+        fields = rawmsg.split(soh)
+        if fields and not fields[-1]:
+            fields.pop()
+        body = fields[2:-1]  # without BeginString, BodyLength, CheckSum
+        sending_time = b""
+        orig_time = None
+        for f in body:
+            if f.startswith(b"52=") and not sending_time:
+                sending_time = f[3:]
+            elif f.startswith(b"122=") and orig_time is None:
+                orig_time = f[4:]
+        if b"43=Y" not in body or not orig_time:
+            # (a journaled copy that was a retransmission itself keeps its
+            #  OrigSendingTime)
+            orig_time = sending_time
+
+        out = []
+        for f in body:
+            if f.startswith((b"43=", b"122=")):
+                continue
+            if f.startswith(b"52="):
+                out.append(b"52=" + self.current_datetime().encode())
+                out.append(b"43=Y")
+                out.append(b"122=" + orig_time)
+            else:
+                out.append(f)
+        body_bytes = soh.join(out) + soh
+        frame = fields[0] + soh + b"9=%d" % len(body_bytes) + soh + body_bytes
+        return frame + b"10=%03d" % (sum(frame) % 256) + soh
+
     def decode(
         self,
         rawmsg: bytes,
